@@ -437,6 +437,21 @@ func VerifC19_AddVersionHistory() {
 		// (rank 0: the dev version, spelled "0" as in the file name name_v0.ext)
 		rank := rt.Choice(tag+".version", 4)
 		a, cur := rt.Bool(tag+".available"), rt.Bool(tag+".current")
+		if rt.Bool(tag + ".unparsable") {
+			// a version string that is no version: refused, nothing changes
+			rt.Assert(res.AddVersion("not-a-version", a, cur, false) != nil, "addversion/unparsable-refused")
+			flagged := 0
+			for _, rv := range res.Versions {
+				if rv.CurrentRelease {
+					flagged++
+					rt.Assert(rankOf(rv) == current, "addversion/refused-call-keeps-the-current-release")
+				}
+			}
+			if current >= 0 {
+				rt.Assert(flagged == 1, "addversion/refused-call-keeps-the-current-release-flag")
+			}
+			continue
+		}
 		rt.Assert(res.AddVersion(c19Numbers[rank], a, cur, false) == nil, "addversion/ok")
 		added[rank] = true
 		if a {
